@@ -1,12 +1,12 @@
 CONSTANTS
   NC = 2
   Names <- Names2
-  NameSeq <- NameSeq2
-  Draws <- Draws2
-  Watched <- Watched2
+  NameSeq <- NameSeq2m
+  Draws <- Draws1
+  Watched <- Watched2m
   Kind = "mem"
   Dev <- DevRest
-  Batches <- Batches2
+  Batches <- Batches2m
   MaxBots = 1
   SendModes <- NoModes
   D = 0
